@@ -254,3 +254,14 @@ pub fn guarded<T>(f: impl FnOnce() -> T) -> Result<T, String> {
         Err(_) => Err(last_panic().unwrap_or_else(|| "panic (message lost)".into())),
     }
 }
+
+static LABEL: Mutex<String> = Mutex::new(String::new());
+/// Name of the running check, used to mark progress on stderr (so that a crash report can say
+/// what the worker was doing).
+pub fn set_label(l: &str) {
+    *LABEL.lock().unwrap_or_else(|e| e.into_inner()) = l.to_string();
+}
+pub fn mark(what: &str) {
+    let l = LABEL.lock().unwrap_or_else(|e| e.into_inner()).clone();
+    eprintln!("[fv] {}/{}", if l.is_empty() { "c00" } else { &l }, what);
+}
